@@ -39,8 +39,9 @@ def run(tier, seed, only=None):
         "its own allocator, released once with its size and allocator on every path, never shared with the source (deep copy); "
         "E1: every byte the operation writes for the element lies inside the block the element owns afterwards (allocation "
         "size >= bytes stored); E2: the stored byte image is the source's used range [data_begin, data_begin+size_in_bytes); "
-        "E3: afterwards every span of the element has the source's length and every field lies at the source's offset from the "
-        "start of the block; E4: non-trivial fields are copy-constructed from lvalue / const sources and move-constructed from "
-        "rvalue mutable references.  Value-level equality of the copied objects is not decided.",
+        "E3: afterwards every span of the element has the source's length; E4: non-trivial fields are copy-constructed from "
+        "lvalue / const sources and move-constructed from rvalue mutable references.  Not decided: value-level equality of the "
+        "copied objects; agreement of the field offsets of source and copy (depends on the congruence of two unrelated base "
+        "addresses); preservation of 'content fits the block' through element-to-element operations is assumed.",
         ASSUME, TRUSTED + ["hook: read-only element observers under TRADIAS_CONTIGUOUS_VERIF"],
         "python3 -m cv check C12 --tier %s" % tier)
